@@ -49,7 +49,11 @@ def build(xknx: Any, cls_name: str, name: str, pool: list[str], off: int = 0, st
         if i % stride != off % stride:
             continue
         a = pool[(i + off) % len(pool)]
-        if as_list and i % 2 == 0:
+        if as_list == "passive" and i % 2 == 0:
+            # listen-only: no active address, one passive address
+            kwargs[p] = [None, a]
+            used.add(a)
+        elif as_list and i % 2 == 0:
             b = pool[(i + off + 1) % len(pool)]
             kwargs[p] = [a, b]
             used |= {a, b}
